@@ -111,6 +111,21 @@ DependsOn(t, d) ==
      ELSE gerrs' = gerrs /\ deps' = [deps EXCEPT ![t] = @ \cup {d}]
   /\ UNCHANGED <<retries, limit, serial, buffered, phase, rvars>>
 
+\* TaskDependsOn(t, d1, d2, ...): the dependencies are processed in order; the first duplicate edge records a
+\* definition error and ends the call (later dependencies of the same call are not even created)
+RECURSIVE DepFold(_, _, _)
+DepFold(t, ds, acc) ==   \* acc: [verts, deps, gerrs]
+  IF ds = <<>> THEN acc
+  ELSE LET d == Head(ds) IN
+       IF d \in acc.deps[t]
+       THEN [verts |-> acc.verts \cup {d}, deps |-> acc.deps, gerrs |-> acc.gerrs + 1]
+       ELSE DepFold(t, Tail(ds), [verts |-> acc.verts \cup {d}, deps |-> [acc.deps EXCEPT ![t] = @ \cup {d}], gerrs |-> acc.gerrs])
+DependsOnSeq(t, ds) ==
+  /\ phase = "build"
+  /\ LET r == DepFold(t, ds, [verts |-> verts \cup {t}, deps |-> deps, gerrs |-> gerrs]) IN
+       verts' = r.verts /\ deps' = r.deps /\ gerrs' = r.gerrs
+  /\ UNCHANGED <<retries, limit, serial, buffered, phase, rvars>>
+
 SetRetries(t, r) ==
   /\ phase = "build"
   /\ verts' = verts \cup {t}
